@@ -2,7 +2,7 @@
 From GP Require Import Tree Meta Match Replace FileEngine MatchFacts FileFacts ReplaceFacts.
 
 (* The replacement is the '+' pattern with every metavariable occurrence replaced by a copy
-   (object links stripped) of the code that metavariable stands for at this site, every
+   (Ident.Obj links kept, F31) of the code that metavariable stands for at this site, every
    "..." by the run its '-' partner skipped, every "for ..." by the recorded header, and
    everything else verbatim: [subst] is that declarative substitution (Proofs/ReplaceFacts.v);
    whenever the replacer succeeds its result is exactly subst. *)
